@@ -39,6 +39,7 @@ func main() {
 	knownPath := flag.String("known", "/verif/known_findings.json", "known findings file")
 	explain := flag.String("explain", "", "replay file to re-evaluate")
 	dump := flag.String("dump", "", "debug: dump paths of function key")
+	dumpSQL := flag.Bool("dumpsql", false, "debug: dump the sqlite model")
 	flag.Parse()
 
 	seed := 0
@@ -58,6 +59,10 @@ func main() {
 	}
 	if *dump != "" {
 		dumpPaths(p, *dump)
+		return
+	}
+	if *dumpSQL {
+		dumpSQLModel(p)
 		return
 	}
 	known, err := loadKnown(*knownPath)
